@@ -1,4 +1,4 @@
-import AmVerif.Proofs.DocCodecRebuild
+import AmVerif.Proofs.DocCodecPlaced
 /-
   C16 — "Any document that loads is internally consistent" — THE PART ABOUT THE DOCUMENT CHUNK:
   what `load` has verified about a chunk it accepts, and what it has not.
@@ -10,14 +10,15 @@ import AmVerif.Proofs.DocCodecRebuild
   * `C16_doc_decode_consistent_partial` — what IS guaranteed for every accepted chunk: every row was
     readable, one change was rebuilt per change row, the stored heads are exactly the sorted heads of
     the rebuilt changes (whose hashes are SHA-256 of their re-encoding), every mark end follows its
-    begin in the same object, change rows name actors of the actor table.
-  * NOT guaranteed — the property is FALSE on the unchanged tree for the remaining clauses ("ids
-    increasing per change, successor ids present or deletes, rows belong to changes"), proved in
-    negated form on concrete chunks the real `load` accepts as well (direct oracle lines
-    `! C16 sig=row-outside-changes`, `dangling-successor`, `duplicate-row`, `read-panics`):
-    `C16_doc_accepts_rows_outside_changes` (op rows and successor entries that belong to no change of
-    the chunk: `builders_index` drops them silently — the loaded document shows a state that is not
-    the interpretation of its changes), `C16_doc_accepts_duplicate_ids` and
+    begin in the same object, change rows name actors of the actor table, and — since the fix
+    77e2efb7e (`ChangeCollector::unplaced`, `Error::OpsOutsideChanges`) — every op row and every
+    successor id lies in the counter range of a change row of its actor
+    (`C16_doc_rows_inside_changes`; before the fix this clause was refuted by the chunk `Ex.mixed`,
+    which is now rejected: `C16_doc_rejects_rows_outside_changes`).
+  * NOT guaranteed — the property is FALSE on the tree for the remaining clauses ("ids increasing
+    per change / distinct, `max_op` is the id of the change's last op"), proved in negated form in
+    `Props/C16DocProg.lean` on concrete chunks the real `load` accepts as well (direct oracle lines
+    `! C16 sig=duplicate-row`, `missing-row`, `read-panics`): `C16_doc_accepts_duplicate_ids` and
     `C16_doc_accepts_wrong_max_op` (changes of more than 18 ops go through `ProgressiveEncoder`,
     which re-encodes the ops by position: neither a duplicated op id nor a `max_op` that disagrees
     with the ops is noticed — the latter is the cause of the known finding L1, `get_changes` panics).
@@ -25,18 +26,43 @@ import AmVerif.Proofs.DocCodecRebuild
 namespace AmVerif.Props.C16Doc
 open AmVerif AmVerif.Crdt AmVerif.DocCodec
 
+/-- **Every row of an accepted chunk belongs to a change row** (the clause "rows belong to changes,
+    successor ids are present or deletes of a change"; holds since 77e2efb7e): if `load` accepts the
+    body of a document chunk then the id of every op row, and every successor id of every row, has the
+    actor of a change row `c` of the chunk and a counter in `estStart c ..= c.max_op`, where
+    `estStart c` is one past the greatest `max_op` of `c`'s dependencies — the range in which
+    `ChangeCollector` files the ops of `c`.
+    (That the id is the id of an op of the REBUILT change does not follow: see
+    `C16_doc_accepts_duplicate_ids` / `C16_doc_accepts_wrong_max_op`.) -/
+theorem C16_doc_rows_inside_changes (limit : Nat) (body : Bytes) (d : Decoded) (cs : List DChange)
+    (h : loadDocBody limit body = .ok (d, cs)) :
+    (∀ r ∈ d.ops, InChange d.changes r.id) ∧ (∀ r ∈ d.ops, ∀ k ∈ r.succ, InChange d.changes k) := by
+  unfold loadDocBody at h
+  split at h
+  · cases h
+  · cases h
+  · split at h
+    · rename_i cs' hr
+      cases h
+      exact rebuild_placed hr
+    · cases h
+    · cases h
+
 /-- **What an accepted chunk guarantees, PARTIAL** (the clauses of C16 that hold): if `load` accepts
     the body of a document chunk then every op row was readable (`opsFail = none`), exactly one change
     was rebuilt per change row, "heads = hashes recomputed from the rebuilt changes" — the stored
-    heads are the sorted heads of the rebuilt changes —, the mark order is valid, and the actor
-    index of every change row is inside the actor table.
-    MISSING (false, see below): that every row belongs to a rebuilt change, that row ids are distinct,
-    that `max_op` is the id of the change's last op, that actor indexes of rows are in bounds. -/
+    heads are the sorted heads of the rebuilt changes —, the mark order is valid, the actor index of
+    every change row is inside the actor table, and every row id and successor id lies in the range
+    of a change row (`C16_doc_rows_inside_changes`).
+    MISSING (false, see `Props/C16DocProg.lean`): that row ids are distinct, that `max_op` is the id
+    of the change's last op; not proved: that actor indexes of rows are in bounds. -/
 theorem C16_doc_decode_consistent_partial (limit : Nat) (body : Bytes) (d : Decoded) (cs : List DChange)
     (h : loadDocBody limit body = .ok (d, cs)) :
     d.opsFail = none ∧ cs.length = d.changes.length ∧
       sortHashes (headsOf (cs.map (·.c))) = d.heads ∧ markOrderOk d.ops [] = true ∧
-      ∀ c ∈ d.changes, c.actor < d.actors.length := by
+      (∀ c ∈ d.changes, c.actor < d.actors.length) ∧
+      (∀ r ∈ d.ops, InChange d.changes r.id) ∧ (∀ r ∈ d.ops, ∀ k ∈ r.succ, InChange d.changes k) := by
+  have hin := C16_doc_rows_inside_changes limit body d cs h
   unfold loadDocBody at h
   split at h
   · cases h
@@ -46,43 +72,26 @@ theorem C16_doc_decode_consistent_partial (limit : Nat) (body : Bytes) (d : Deco
     · rename_i cs' hr
       cases h
       obtain ⟨h1, h2, h3, h4⟩ := rebuild_ok hr
-      exact ⟨h4, h2, h1, h3, decodeParts_actor_bound hd⟩
+      exact ⟨h4, h2, h1, h3, decodeParts_actor_bound hd, hin.1, hin.2⟩
     · cases h
     · cases h
 
-set_option maxRecDepth 100000 in
-/-- non-vacuity: the chunk of the example history is accepted, with its 4 changes -/
-example : (match loadDocBody 1000 (encodeDoc (imageOf Ex.history)) with
-    | .ok (d, cs) => d.ops.length == 14 && cs == Ex.history
-    | _ => false) = true := by decide +kernel
+-- non-vacuity (the chunk of the example history is accepted, 14 rows, 4 successor entries): `Props/C16DocEx.lean`
 
 set_option maxRecDepth 100000 in
-/-- **C16 is FALSE: rows outside every change are accepted.**  The chunk `Ex.mixed` carries the
-    heads and change rows of the first three changes of the example and the op rows of all four.
-    `load` accepts it: the three changes are rebuilt and their heads verify; the row of op `13@A`
-    (the put that resolves the conflict on `c`) and the successor entries naming it are in no
-    rebuilt change.  The loaded document shows `c = 9` with the history of a document where `c` is
-    still in conflict. -/
-theorem C16_doc_accepts_rows_outside_changes :
-    ∃ body d cs, loadDocBody 1000 body = .ok (d, cs) ∧
-      ∃ r ∈ d.ops, ∀ c ∈ cs, ∀ o ∈ c.c.ops, ¬ (o.id.ctr = r.id.ctr ∧ some o.id.actor = d.actors[r.id.actor]?) := by
+/-- **the witness that refuted this clause before 77e2efb7e is now rejected.**  The chunk `Ex.mixed`
+    carries the heads and change rows of the first three changes of the example and the op rows of
+    all four: the row of op `13@A` (the put that resolves the conflict on `c`) and the successor
+    entries naming it are in no change row.  `load` used to accept it (the loaded document showed
+    `c = 9` with the history of a document where `c` is still in conflict); it now answers
+    `OpsOutsideChanges`. -/
+theorem C16_doc_rejects_rows_outside_changes :
+    loadDocBody 1000 (encodeDoc Ex.mixed) = .err .changes := by
   have key : (match loadDocBody 1000 (encodeDoc Ex.mixed) with
-      | .ok (d, cs) => cs == Ex.earlier &&
-          d.ops.any (fun r => cs.all (fun c => c.c.ops.all (fun o =>
-            !(decide (o.id.ctr = r.id.ctr) && (some o.id.actor == d.actors[r.id.actor]?)))))
+      | .err .changes => true
       | _ => false) = true := by decide +kernel
-  cases hl : loadDocBody 1000 (encodeDoc Ex.mixed) with
-  | ok p =>
-    obtain ⟨d, cs⟩ := p
-    rw [hl] at key
-    simp only [Bool.and_eq_true, List.any_eq_true, List.all_eq_true, Bool.not_eq_true', Bool.and_eq_false_iff,
-      decide_eq_false_iff_not, beq_eq_false_iff_ne] at key
-    obtain ⟨_, r, hr, hk⟩ := key
-    refine ⟨_, d, cs, hl, r, hr, fun c hc o ho => ?_⟩
-    rcases hk c hc o ho with h | h
-    · exact fun hh => h hh.1
-    · exact fun hh => h hh.2
-  | err e => rw [hl] at key; cases key
-  | panic p => rw [hl] at key; cases key
+  split at key
+  · assumption
+  · cases key
 
 end AmVerif.Props.C16Doc
